@@ -23,9 +23,9 @@ using vf::Case;
 using vf::Explorer;
 using vf::Verdict;
 
-enum LockForm { kLock, kGuard, kGuardSticky, kTryLock, kTryGuard, kLockFormN };
+enum LockForm { kLock, kGuard, kGuardSticky, kTryLock, kTryGuard, kDeferGuard, kLockFormN };
 enum UnlockForm { kUnlock, kUnlockOn, kUnlockHere, kGuardDtor, kGuardUnlock, kUnlockFormN };
-const char* const kLockName[] = {"Lock", "Guard", "GuardSticky", "TryLock", "TryGuard"};
+const char* const kLockName[] = {"Lock", "Guard", "GuardSticky", "TryLock", "TryGuard", "deferred guard + guard.TryLock"};
 const char* const kUnlockName[] = {"Unlock", "UnlockOn(e)", "UnlockHere", "guard-destruction", "guard.Unlock"};
 
 struct Round {
@@ -39,6 +39,7 @@ struct MCtx {
   int finished = 0;
   int contended = 0;
   int try_success_while_held = 0;
+  int given_up = 0;  // rounds whose guard.TryLock() failed and that dropped the (not owning) guard instead of waiting
   const char* err = nullptr;
   std::vector<std::pair<int, int>> arrivals, grants;
   bool fifo_observable = true;
@@ -136,6 +137,49 @@ yaclib::Future<> MutexWorker(yaclib::IExecutor& pool, yaclib::IExecutor& other, 
         }  // else: guard destruction at scope exit
         break;
       }
+      case kDeferGuard: {
+        // guard object API: deferred construction, guard.TryLock(), guard.Lock(), Release(); a guard that does not own
+        // the lock must say so and must not unlock anything when it dies
+        yaclib::UniqueGuard<yaclib::Mutex<B, F>> g{m, std::defer_lock};
+        if (g.OwnsLock()) {
+          cx.Err("a deferred guard claims to own the lock");
+        }
+        const bool got = g.TryLock();
+        if (got != g.OwnsLock()) {
+          cx.Err(got ? "guard.TryLock() succeeded but the guard does not own the lock"
+                     : "guard.TryLock() failed but the guard claims to own the lock");
+        }
+        if (got) {
+          cx.fifo_observable = false;
+        } else if (rd.unlock == kUnlockHere) {
+          ++cx.given_up;  // the guard dies here without the lock
+          break;
+        } else {
+          cx.arrivals.emplace_back(id, round);
+          co_await g.Lock();
+          if (!g.OwnsLock()) {
+            cx.Err("guard.Lock() resumed but the guard does not own the lock");
+          }
+        }
+        cx.Enter(id, round);
+        if (inside()) {
+          co_await yaclib::kYield;
+        }
+        cx.Leave();
+        if (rd.unlock == kUnlock) {
+          auto* pm = g.Release();  // hand the lock back to the raw API
+          if (pm != &m || g.OwnsLock()) {
+            cx.Err("guard.Release() did not hand over the mutex");
+          }
+          co_await pm->Unlock();
+        } else if (rd.unlock == kGuardUnlock) {
+          co_await g.Unlock();
+        } else if (rd.unlock == kUnlockOn) {
+          cx.fifo_observable = false;
+          co_await g.UnlockOn(other);
+        }  // else: guard destruction at scope exit (kUnlockHere after a successful TryLock, kGuardDtor)
+        break;
+      }
       default: {
         cx.arrivals.emplace_back(id, round);
         auto g = co_await m.GuardSticky();
@@ -192,8 +236,8 @@ struct SCtx {
   }
 };
 
-enum RWForm { kRwLock, kRwGuard, kRwTryLock, kRwTryGuard, kRwFormN };
-const char* const kRwName[] = {"Lock+UnlockHere", "Guard", "TryLock", "TryGuard"};
+enum RWForm { kRwLock, kRwGuard, kRwTryLock, kRwTryGuard, kRwDeferGuard, kRwFormN };
+const char* const kRwName[] = {"Lock+UnlockHere", "Guard", "TryLock", "TryGuard", "deferred guard + guard.TryLock"};
 
 template <bool F, bool RF>
 yaclib::Future<> RWWorker(yaclib::IExecutor& pool, yaclib::SharedMutex<F, RF>& m, SCtx& cx, bool writer,
@@ -220,6 +264,18 @@ yaclib::Future<> RWWorker(yaclib::IExecutor& pool, yaclib::SharedMutex<F, RF>& m
         yaclib::UniqueGuard<yaclib::SharedMutex<F, RF>> g;
         if (form == kRwTryGuard) {
           g = m.TryGuard();
+        } else if (form == kRwDeferGuard) {
+          g = yaclib::UniqueGuard<yaclib::SharedMutex<F, RF>>{m, std::defer_lock};
+          const bool got = g.TryLock();
+          if (got != g.OwnsLock()) {
+            cx.Err("guard.TryLock() result and guard.OwnsLock() disagree (exclusive)");
+          }
+          if (!got && rd.unlock % 3 == 2) {
+            continue;  // give up: the guard that does not own the lock dies here and must not unlock anything
+          }
+          if (!got) {
+            co_await g.Lock();
+          }
         }
         if (!g) {
           g = co_await m.Guard();
@@ -248,6 +304,18 @@ yaclib::Future<> RWWorker(yaclib::IExecutor& pool, yaclib::SharedMutex<F, RF>& m
         yaclib::SharedGuard<yaclib::SharedMutex<F, RF>> g;
         if (form == kRwTryGuard) {
           g = m.TryGuardShared();
+        } else if (form == kRwDeferGuard) {
+          g = yaclib::SharedGuard<yaclib::SharedMutex<F, RF>>{m, std::defer_lock};
+          const bool got = g.TryLock();
+          if (got != g.OwnsLock()) {
+            cx.Err("guard.TryLock() result and guard.OwnsLock() disagree (shared)");
+          }
+          if (!got && rd.unlock % 3 == 2) {
+            continue;  // give up without the lock
+          }
+          if (!got) {
+            co_await g.Lock();
+          }
         }
         if (!g) {
           g = co_await m.GuardShared();
@@ -328,12 +396,28 @@ class CoMutex final : public vf::Family {
       const int k = vf::Pick(0, 3);
       c.hdr = {vf::Pick(0, 4), k, vf::Pick(0, 3), vf::Pick(0, 16)};
       const int n = vf::Pick(2, 10);
+      if (vf::Pick(0, 5) == 0) {
+        // one case in five has the shape in which the FIFO clause is observable: FIFO option, one worker, waiting lock
+        // forms only, no UnlockOn (measured: 0.8 % of the cases without this bias)
+        c.hdr[0] = 2 + vf::Pick(0, 2);
+        c.hdr[2] = 0;
+        for (int i = 0; i < n; ++i) {
+          c.prog.push_back(vf::Pick(0, 4));
+          c.prog.push_back(vf::Pick(0, 3));
+          static const int kUn[] = {0, 2, 3, 4};
+          c.prog.push_back(kUn[vf::Pick(0, 4)]);
+          c.prog.push_back(vf::Pick(0, 3) == 0 ? 1 : 0);
+        }
+        c.tape = *vf::GenTape(500);
+        return c;
+      }
       for (int i = 0; i < n; ++i) {
         c.prog.push_back(vf::Pick(0, 4));
-        // lock form: values 5..7 alias the Try forms (index 3, 4 for Mutex; 2, 3 for SharedMutex after the modulo)
+        // lock form (taken modulo 6 for Mutex, modulo 5 for SharedMutex): 0..5 directly, the rest alias the Try and the
+        // deferred-guard forms so that those make up about half of the rounds
         {
-          const int f = vf::Pick(0, 8);
-          c.prog.push_back(f < 5 ? f : (f == 5 ? 3 : f == 6 ? 2 : 8));
+          static const int kAlias[] = {0, 1, 2, 3, 4, 5, 3, 2, 33, 5, 35, 4};  // 33 % 6 = 3, 33 % 5 = 3; 35 % 6 = 5, 35 % 5 = 0
+          c.prog.push_back(kAlias[vf::Pick(0, 12)]);
         }
         c.prog.push_back(vf::Pick(0, 5));
         c.prog.push_back(vf::Pick(0, 3) == 0 ? 1 : 0);
@@ -448,7 +532,7 @@ class CoMutex final : public vf::Family {
       v.Fail("deadlock: a Lock/Guard request was never granted although every holder released (lost wake-up)");
     } else if (cx.err != nullptr) {
       v.Fail(cx.err);
-    } else if (cx.finished != d.k || cx.cs != total) {
+    } else if (cx.finished != d.k || cx.cs + cx.given_up != total) {
       v.Fail("not every lock request was granted exactly once");
     } else if (F && d.n == 1 && cx.fifo_observable && cx.arrivals != cx.grants) {
       v.Fail("FIFO mutex on a single worker: grant order differs from arrival order");
@@ -458,6 +542,28 @@ class CoMutex final : public vf::Family {
     v.tags.push_back(d.n == 1 ? "single-worker" : "multi-worker");
     if (F && d.n == 1 && cx.fifo_observable) {
       v.tags.push_back("fifo-order-checked");
+    }
+    {
+      unsigned lf = 0, uf = 0;
+      for (const auto& rs : d.rounds) {
+        for (const auto& r : rs) {
+          lf |= 1u << (r.lock % kLockFormN);
+          uf |= 1u << (r.unlock % kUnlockFormN);
+        }
+      }
+      for (int k = 0; k < kLockFormN; ++k) {
+        if ((lf >> k) & 1u) {
+          v.tags.push_back(vf::Intern(std::string("lock:") + kLockName[k]));
+        }
+      }
+      for (int k = 0; k < kUnlockFormN; ++k) {
+        if ((uf >> k) & 1u) {
+          v.tags.push_back(vf::Intern(std::string("unlock:") + kUnlockName[k]));
+        }
+      }
+      if (cx.given_up > 0) {
+        v.tags.push_back("guard-given-up-without-lock");
+      }
     }
     char b[96];
     std::snprintf(b, sizeof b, "critical_sections=%d contended=%d switches=%u", cx.cs, cx.contended, ex.switches);
@@ -497,6 +603,19 @@ class CoMutex final : public vf::Family {
     v.nontrivial = cx.contended > 0;
     v.hash = vf::Mix64(c.ProgHash(), ex.trace_hash);
     v.tags.push_back(d.n == 1 ? "single-worker" : "multi-worker");
+    {
+      unsigned lf = 0;
+      for (const auto& rs : d.rounds) {
+        for (const auto& r : rs) {
+          lf |= 1u << (r.lock % kRwFormN);
+        }
+      }
+      for (int k = 0; k < kRwFormN; ++k) {
+        if ((lf >> k) & 1u) {
+          v.tags.push_back(vf::Intern(std::string("form:") + kRwName[k]));
+        }
+      }
+    }
     char b[96];
     std::snprintf(b, sizeof b, "writes=%ld contended=%d switches=%u", cx.writes, cx.contended, ex.switches);
     v.detail = b;
